@@ -279,3 +279,274 @@ def cleanup_in_reraising_handler(ctx: Ctx, f: FunctionInfo, hn: Node) -> bool:
             if outer is not None and handler_always_raises(ctx, f, outer):
                 return True
     return False
+
+
+def nonnull_inline_return_edges(ctx: Ctx, f: FunctionInfo, target: Node) -> Set[Tuple[int, int]]:
+    """Path-sensitivity for the commonest correlation an extracted helper introduces:
+
+        x = self._helper(...)        # inlined; returns None on some paths, an object on others
+        if x is None: <target>
+
+    When `target` is only reachable through the true edge of a None-test on the helper's result, paths that leave the
+    helper through a `return <non-None value>` are infeasible; the edges out of those return sites are returned so that a
+    path query can exclude them.  A returned Name counts as possibly-None if any of its reaching definitions is None."""
+    g = ctx.cfg(f)
+    dom = ctx.dom(f, ALL)
+    out: Set[Tuple[int, int]] = set()
+    rd = ctx.rd(f)
+    for b in g.nodes:
+        if b.kind != "branch" or b.id not in dom[target.id]:
+            continue
+        t_ = b.ast
+        var = None
+        none_label = None
+        if isinstance(t_, ast.Compare) and len(t_.ops) == 1 and isinstance(t_.left, ast.Name) \
+                and isinstance(t_.comparators[0], ast.Constant) and t_.comparators[0].value is None:
+            var, none_label = t_.left.id, ("true" if isinstance(t_.ops[0], (ast.Is, ast.Eq)) else "false")
+        elif isinstance(t_, ast.Name):
+            var, none_label = t_.id, "false"
+        if var is None:
+            continue
+        nt = edge_target(g, b, none_label)
+        ot = edge_target(g, b, "false" if none_label == "true" else "true")
+        if nt is None or target.id not in reachable_from(g, nt, NORMAL) or (ot is not None and target.id in reachable_from(g, ot, NORMAL)):
+            continue
+        for d in rd.reaching(b.id, var):
+            dn = g.nodes[d]
+            if not (isinstance(dn.ast, ast.Assign) and isinstance(dn.ast.value, ast.Call)):
+                continue
+            for rexpr, rnode in g.inline_returns.get(id(dn.ast.value), []):
+                maybe_none = rexpr is None or (isinstance(rexpr, ast.Constant) and rexpr.value is None)
+                if isinstance(rexpr, ast.Name):
+                    for d2 in rd.reaching(rnode, rexpr.id):
+                        a2 = g.nodes[d2].ast
+                        if d2 == g.entry or (isinstance(a2, (ast.Assign, ast.AnnAssign)) and (
+                                (isinstance(a2.value, ast.Constant) and a2.value.value is None) or isinstance(a2.value, (ast.IfExp, ast.BoolOp)))):
+                            maybe_none = True
+                elif isinstance(rexpr, (ast.IfExp, ast.BoolOp)):
+                    maybe_none = True
+                if maybe_none and isinstance(rexpr, ast.Name):
+                    # `if v: return v` / `if v is not None: return v`: non-None by the dominating test
+                    for b2 in g.nodes:
+                        if b2.kind != "branch" or b2.id not in dom[rnode]:
+                            continue
+                        t2 = b2.ast
+                        lab = None
+                        if isinstance(t2, ast.Name) and t2.id == rexpr.id:
+                            lab = "true"
+                        elif isinstance(t2, ast.Compare) and isinstance(t2.left, ast.Name) and t2.left.id == rexpr.id \
+                                and isinstance(t2.comparators[0], ast.Constant) and t2.comparators[0].value is None:
+                            lab = "true" if isinstance(t2.ops[0], (ast.IsNot, ast.NotEq)) else "false"
+                        if lab is None:
+                            continue
+                        te, fe = edge_target(g, b2, lab), edge_target(g, b2, "false" if lab == "true" else "true")
+                        if te is not None and rnode in reachable_from(g, te, NORMAL) and (fe is None or rnode not in reachable_from(g, fe, NORMAL)):
+                            maybe_none = False
+                if not maybe_none:
+                    for dd, _l in g.succ[rnode]:
+                        out.add((rnode, dd))
+    return out
+
+
+def top_function(f: FunctionInfo) -> FunctionInfo:
+    while f.parent is not None:
+        f = f.parent
+    return f
+
+
+def owner_tops(ctx: Ctx, f: FunctionInfo, depth: int = 0, seen: Optional[Set[str]] = None) -> List[FunctionInfo]:
+    """The KNOWN top-level functions a construct inside `f` is attributed to: f's own top-level function when it existed
+    when the rules were written, otherwise (a helper introduced later) the known functions that call it, transitively."""
+    top = top_function(f)
+    if ctx.prog.is_known(top):
+        return [top]
+    seen = seen if seen is not None else set()
+    if top.qname in seen or depth > 4:
+        return []
+    seen.add(top.qname)
+    out: List[FunctionInfo] = []
+    for caller, _n in ctx.eff.call_sites.get(top.qname, []):
+        for o in owner_tops(ctx, caller, depth + 1, seen):
+            if o not in out:
+                out.append(o)
+    return out
+
+
+def effective_compare(ctx: Ctx, f: FunctionInfo, b: Node):
+    """The comparison a branch decides: the branch's own Compare, or - for `flag = a < b ... if flag:` - the Compare
+    assigned to the flag when that assignment is its only reaching definition.  Returns (Compare, node id where its
+    operands are evaluated) or None."""
+    if b.kind != "branch" or b.ast is None:
+        return None
+    if isinstance(b.ast, ast.Compare):
+        return b.ast, b.id
+    if isinstance(b.ast, ast.Name):
+        g = ctx.cfg(f)
+        defs = ctx.rd(f).reaching(b.id, b.ast.id)
+        if len(defs) == 1:
+            d = g.nodes[next(iter(defs))]
+            if d.kind == "stmt" and isinstance(d.ast, ast.Assign) and isinstance(d.ast.value, ast.Compare) \
+                    and len(d.ast.targets) == 1 and isinstance(d.ast.targets[0], ast.Name):
+                return d.ast.value, d.id
+    return None
+
+
+def str_consts(ctx: Ctx, f: FunctionInfo, e: Optional[ast.AST]) -> Set[str]:
+    """String constants of an expression, following references to class / module level constants (NAME, self.NAME)."""
+    out: Set[str] = set()
+    if e is None:
+        return out
+    for x in ast.walk(e):
+        if isinstance(x, ast.Constant) and isinstance(x.value, str):
+            out.add(x.value)
+        nm = x.id if isinstance(x, ast.Name) else (x.attr if isinstance(x, ast.Attribute) else None)
+        if nm is None:
+            continue
+        top = f
+        while top.parent is not None:
+            top = top.parent
+        for table in ((top.cls.consts if top.cls is not None else {}), f.module.consts):
+            v = table.get(nm)
+            if v is not None and isinstance(v, (ast.Tuple, ast.List, ast.Set, ast.Constant, ast.Call)):
+                out |= {c.value for c in ast.walk(v) if isinstance(c, ast.Constant) and isinstance(c.value, str)}
+    return out
+
+
+def code_branches(ctx: Ctx, f: FunctionInfo, hn: Node):
+    """Equality / membership dispatch inside a handler: yields (branch, codes, raises on the MATCH side only,
+    raises on the OTHER side only, nodes on the match side only, nodes on the other side only)."""
+    g = ctx.cfg(f)
+    for b in g.nodes:
+        if b.kind != "branch" or not in_handler(b, hn.ast) or b.id not in g.reachable():  # type: ignore[arg-type]
+            continue
+        ec = effective_compare(ctx, f, b)
+        if ec is None or len(ec[0].ops) != 1:
+            continue
+        op = ec[0].ops[0]
+        if isinstance(op, (ast.Eq, ast.In)):
+            ml, ol = "true", "false"
+        elif isinstance(op, (ast.NotEq, ast.NotIn)):
+            ml, ol = "false", "true"
+        else:
+            continue
+        mt, ot = edge_target(g, b, ml), edge_target(g, b, ol)
+        mreach = reachable_from(g, mt, NORMAL) if mt is not None else set()
+        oreach = reachable_from(g, ot, NORMAL) if ot is not None else set()
+        m_only, o_only = mreach - oreach, oreach - mreach
+        yield (b, str_consts(ctx, f, ec[0]),
+               {g.nodes[x].raised for x in m_only if g.nodes[x].kind == "raise"},
+               {g.nodes[x].raised for x in o_only if g.nodes[x].kind == "raise"}, m_only, o_only)
+
+
+def facts_at(ctx: Ctx, f: FunctionInfo, n: Node) -> List[Tuple[str, ast.AST, int]]:
+    """Conditions known on arrival at node n: [(polarity, expr, node where expr was evaluated)], polarity in
+    'true' | 'false' | 'nonnull' | 'null'.  Sources: every branch that dominates n and one of whose edges excludes n.
+    Boolean structure is unfolded (and / or / not, `x is None`), also through a flag variable with a single reaching
+    definition whose operands are not re-assigned in between (`ok = a and b ... if ok:`)."""
+    g = ctx.cfg(f)
+    rd = ctx.rd(f)
+    dom = ctx.dom(f, ALL)
+    out: List[Tuple[str, ast.AST, int]] = []
+
+    def same_operands(e: ast.AST, d: int, at: int) -> bool:
+        return all(rd.reaching(d, nm) == rd.reaching(at, nm) for nm in names_in(e))
+
+    def add(pol: str, e: ast.AST, at: int, depth: int = 0) -> None:
+        out.append((pol, e, at))
+        if depth > 6:
+            return
+        truthy = pol in ("true", "nonnull")
+        if isinstance(e, ast.BoolOp):
+            if truthy and isinstance(e.op, ast.And) and pol == "true":
+                for v in e.values:
+                    add("true", v, at, depth + 1)
+            if pol == "false" and isinstance(e.op, ast.Or):
+                for v in e.values:
+                    add("false", v, at, depth + 1)
+        elif isinstance(e, ast.UnaryOp) and isinstance(e.op, ast.Not):
+            if pol == "true":
+                add("false", e.operand, at, depth + 1)
+            elif pol == "false":
+                add("true", e.operand, at, depth + 1)
+        elif isinstance(e, ast.Compare) and len(e.ops) == 1 and isinstance(e.comparators[0], ast.Constant) \
+                and e.comparators[0].value is None and isinstance(e.ops[0], (ast.Is, ast.IsNot)) and pol in ("true", "false"):
+            isnone = isinstance(e.ops[0], ast.Is) == (pol == "true")
+            add("null" if isnone else "nonnull", e.left, at, depth + 1)
+        elif isinstance(e, ast.Name):
+            defs = rd.reaching(at, e.id)
+            if len(defs) == 1:
+                d = next(iter(defs))
+                dn = g.nodes[d]
+                if d != g.entry and dn.kind == "stmt" and isinstance(dn.ast, (ast.Assign, ast.AnnAssign)) \
+                        and getattr(dn.ast, "value", None) is not None:
+                    tg = dn.ast.targets if isinstance(dn.ast, ast.Assign) else [dn.ast.target]
+                    if len(tg) == 1 and isinstance(tg[0], ast.Name) and same_operands(dn.ast.value, d, at):
+                        add(pol, dn.ast.value, d, depth + 1)
+
+    for b in g.nodes:
+        if b.kind != "branch" or b.ast is None or b.id == n.id or b.id not in dom[n.id]:
+            continue
+        t, fl = edge_target(g, b, "true"), edge_target(g, b, "false")
+        rt = reachable_from(g, t, NORMAL) if t is not None else set()
+        rf = reachable_from(g, fl, NORMAL) if fl is not None else set()
+        if n.id in rt and n.id not in rf:
+            add("true", b.ast, b.id)
+        elif n.id in rf and n.id not in rt:
+            add("false", b.ast, b.id)
+    return out
+
+
+def null_edges(g: CFG, var: str) -> Set[Tuple[int, int]]:
+    """CFG edges taken only when variable `var` is None (or falsy): `var is None` true, `var is not None` false,
+    `if var` false."""
+    out: Set[Tuple[int, int]] = set()
+    for b in g.nodes:
+        if b.kind != "branch" or b.ast is None:
+            continue
+        lab = None
+        a = b.ast
+        if isinstance(a, ast.Compare) and len(a.ops) == 1 and isinstance(a.left, ast.Name) and a.left.id == var \
+                and isinstance(a.comparators[0], ast.Constant) and a.comparators[0].value is None:
+            lab = "true" if isinstance(a.ops[0], (ast.Is, ast.Eq)) else ("false" if isinstance(a.ops[0], (ast.IsNot, ast.NotEq)) else None)
+        elif isinstance(a, ast.Name) and a.id == var:
+            lab = "false"
+        if lab is not None:
+            out |= {(b.id, d) for d, l in g.succ[b.id] if l == lab}
+    return out
+
+
+def eval3(e: ast.AST, atom) -> Optional[bool]:
+    """Three-valued (Kleene) evaluation of a boolean expression: `atom(sub)` gives True / False for the sub-expressions
+    whose value is fixed by the scenario under study and None for everything else."""
+    v = atom(e)
+    if v is not None:
+        return v
+    if isinstance(e, ast.BoolOp):
+        vals = [eval3(x, atom) for x in e.values]
+        if isinstance(e.op, ast.And):
+            if any(x is False for x in vals):
+                return False
+            return True if all(x is True for x in vals) else None
+        if any(x is True for x in vals):
+            return True
+        return False if all(x is False for x in vals) else None
+    if isinstance(e, ast.UnaryOp) and isinstance(e.op, ast.Not):
+        x = eval3(e.operand, atom)
+        return None if x is None else (not x)
+    if isinstance(e, ast.IfExp):
+        t = eval3(e.test, atom)
+        if t is True:
+            return eval3(e.body, atom)
+        if t is False:
+            return eval3(e.orelse, atom)
+        a, b = eval3(e.body, atom), eval3(e.orelse, atom)
+        return a if a == b else None
+    if isinstance(e, ast.Constant) and isinstance(e.value, bool):
+        return e.value
+    return None
+
+
+def known_null_call(ctx: Ctx, f: FunctionInfo, n: Node, attr: str) -> bool:
+    """On arrival at n, is the result of a `<x>.attr(...)` call known to be None (tested directly or through a variable)?"""
+    return any(pol == "null" and isinstance(e, ast.Call) and isinstance(e.func, ast.Attribute) and e.func.attr == attr
+               for pol, e, _at in facts_at(ctx, f, n))
